@@ -1,7 +1,7 @@
 """C04 - linear (R^2/R^3) graphs are solved to the global weighted-least-squares optimum."""
 import numpy as np
 
-from .. import graphcheck as GC, graphgen as GG, gs, refgraph as RG, refmodel as R, strategies as S
+from .. import graphcheck as GC, graphgen as GG, gs, hugegraph as HG, refgraph as RG, refmodel as R, strategies as S
 
 ID = "C04"
 RULE = (
@@ -21,6 +21,8 @@ ASSUMPTIONS = ["numpy.linalg.lstsq / cholesky trusted", "no claim on the `conver
 
 @S.composite
 def strategy_(g):
+    if g.rnd.random() < 0.004:
+        return HG.gen(g)
     case = GG.gen(
         g,
         bases=("r2", "r3"),
@@ -30,7 +32,7 @@ def strategy_(g):
         conds=(1.0, 1e2, 1e4),
         noise=(g.choice([0.05, 1.0, 10.0]),) * 2,
         pert=(0.3, 0.3),
-        features=("parallel", "reversed", "permute", "ids", "multifixed", "rn_lm_offsets", "quat-signs", "pure-translation-steps"),
+        features=("parallel", "reversed", "permute", "ids", "multifixed", "rn_lm_offsets", "quat-signs", "pure-translation-steps", "info-scale", "edge-object-twice", "flag-types"),
     )
     P = g.choice([0.0, 0.05, 1.0, 1.0, 1e3, 1e6])
     W = g.choice([0.0, 0.0, 0.0, 1e4, 1e7])  # a common offset of all coordinates (georeferenced data); only differences matter
@@ -79,7 +81,8 @@ def strategy(tier):
     return strategy_()
 
 
-summarise = GG.summarise
+def summarise(case):
+    return case if case.get("shape") == "huge" else GG.summarise(case)
 
 
 def closed_form(case, fixed):
@@ -145,6 +148,8 @@ def closed_form(case, fixed):
 
 
 def check(case, ctx):
+    if case.get("shape") == "huge":
+        return HG.check_one_step(case, ctx, "not-the-wls-optimum:large-graph")
     GG.classify(case, ctx)
     m = case["meta"]
     feats = set(m["feats"])
